@@ -102,7 +102,7 @@ m = {
    {"name":"modelsim","path":"props/modelsim.go","serves_properties":["C04","C05","C07","C12"],"kind_free_text":"fault-free single-task arm of the simulator: seeded programs, reference model, independent decoder"},
  ],
  "checks": [],
- "notes": "add_only is false because three `range m` expressions in bucket.go became `range verifOrdered(m)` (identity when the tag is off); every other hook only adds lines. Exit codes: 0 held / 1 VIOLATION / 2 harness trouble.",
+ "notes": "add_only is false because three `range m` expressions in bucket.go became `range verifOrdered(m)` (identity when the tag is off) and the three long-held lock fields of DB got the types verifMutex / verifRWMutex (aliases of sync.Mutex / sync.RWMutex when the tag is off; self-probing wrappers when on); every other hook only adds lines. Exit codes: 0 held / 1 VIOLATION / 2 harness trouble.",
  "not_applicable": [{"property_id":k,"reason":v} for k,v in sorted(NA_PENDING.items())],
 }
 for pid,c in sorted(CHECKS.items()):
